@@ -626,17 +626,22 @@ fn parse_non_constant_value(
             string.map(NonConstantValue::String).wrap_ok()
         })?;
 
-        to_control_flow::<_, Diagnostic>(|| {
-            let number = tokens.parse_source_of_kind(
-                IsographLangTokenKind::IntegerLiteral,
-                semantic_token_legend::ST_NUMBER_LITERAL,
-            )?;
-            number
-                .map(|number| {
-                    NonConstantValue::Integer(number.parse().expect("Expected valid integer"))
-                })
-                .wrap_ok()
-        })?;
+        if let Ok(number) = tokens.parse_source_of_kind(
+            IsographLangTokenKind::IntegerLiteral,
+            semantic_token_legend::ST_NUMBER_LITERAL,
+        ) {
+            // The token has been consumed, so an out-of-range literal must be an
+            // error (and not fall through to the other alternatives.)
+            return match number.item.parse() {
+                Ok(integer) => {
+                    ControlFlow::Break(number.map(|_| NonConstantValue::Integer(integer)))
+                }
+                Err(_) => ControlFlow::Continue(Diagnostic::new(
+                    "Integer literals must fit in 64 bits".to_string(),
+                    number.location.to::<Location>().wrap_some(),
+                )),
+            };
+        }
 
         to_control_flow::<_, Diagnostic>(|| {
             let open = tokens.parse_token_of_kind(
